@@ -41,10 +41,7 @@ Theorem c02_place_orientation : forall s id rowi pred x s',
     (cell_orientation_in_row (p_pol c') (dr_o r) = oUNKNOWN \/ p_o c' = cell_orientation_in_row (p_pol c') (dr_o r)).
 Proof. exact place_orientation. Qed.
 
-(* [V] the shift pass writes the dual values of a min-cost flow (lemon, not modelled) into
-   cellX_ without a guard; that these positions keep every row legal is validated on every driven
-   pass and every exposed state with the proved checker, not proved.
-   [V] "never fails on a circuit legalization accepts" (F6, repaired in /repo) and "multi-row
+(* [V] "never fails on a circuit legalization accepts" (F6, repaired in /repo) and "multi-row
    cells stay where legalization put them" are checked on every run of the correspondence. *)
 
 (* non-vacuity: two rows, a swap across rows and an insert, from a legal state *)
@@ -63,7 +60,21 @@ Proof.
   vm_compute. repeat split; discriminate.
 Qed.
 
+(* [F] the shift pass: ANY vector of new positions for ANY set of selected cells that satisfies the
+   positional constraints the C++ hands to the network simplex (next selected: x_next >= x_c + w_c;
+   predecessor not selected: x_c >= boundaryBefore(c); successor not selected: x_c + w_c <=
+   boundaryAfter(c)) keeps every row legal.  The solver itself (lemon) is not modelled: that its
+   output satisfies these constraints is re-checked with `shift_ok` on every driven shift pass. *)
+Theorem c02_shift_guard_sound : forall s xs, Inv s -> shift_ok s xs = true -> Inv (apply_shift s xs).
+Proof. exact shift_inv. Qed.
+
+Example c02_shift_nonvacuous :
+  shift_ok ex_state [(0%nat, 1); (1%nat, 8)] = true /\ shift_ok ex_state [(0%nat, 3)] = false /\
+  apply_shift ex_state [(0%nat, 1); (1%nat, 8)] <> ex_state.
+Proof. vm_compute. repeat split; discriminate. Qed.
+
 Print Assumptions c02_moves_keep_rows_legal.
 Print Assumptions c02_inv_reads.
 Print Assumptions c02_refused_move_is_noop.
 Print Assumptions c02_place_orientation.
+Print Assumptions c02_shift_guard_sound.
